@@ -1083,43 +1083,42 @@ func c01StockHookAndVariants(c *Ctx) {
 	}
 	c.Floor("C01.h-stock-hook-decides", 2)
 
-	// all-links and single-block selectors carry no depth to split: such syncs must not be segmented
+	// all-links and single-block selectors carry no depth to split: such syncs must not be segmented. Looked at
+	// where the per-publisher sync routine is finally called, in the terms of each exported entry point (whatever
+	// helpers and parameter structs the selector and the segment size travel through on the way)
 	n := 0
-	for _, f := range c.Funcs(dagsyncPkg) {
-		for _, cs := range c.Calls(f.SSA, Any()) {
-			callee := cs.In.Common().StaticCallee()
-			if callee == nil || callee.Pkg != f.SSA.Pkg || callee.Signature.Params().Len() < 2 {
+	if hr := c.Role("dagsync.handle"); hr != nil {
+		ps := hr.Signature.Params()
+		selIdx, segIdx := -1, -1
+		for i := 0; i < ps.Len(); i++ {
+			switch ts := types.Unalias(ps.At(i).Type()).String(); {
+			case strings.HasSuffix(ts, "go-ipld-prime/datamodel.Node"):
+				selIdx = i
+			case ts == "int64":
+				segIdx = i
+			}
+		}
+		for _, f := range c.Funcs(dagsyncPkg) {
+			if selIdx < 0 || segIdx < 0 || f.SSA.Object() == nil || !f.SSA.Object().Exported() {
 				continue
 			}
-			// a same-package routine taking (…, selector node, hook, segment size)
-			ps := callee.Signature.Params()
-			selIdx, segIdx := -1, -1
-			for i := 0; i < ps.Len(); i++ {
-				switch ts := types.Unalias(ps.At(i).Type()).String(); {
-				case strings.HasSuffix(ts, "go-ipld-prime/datamodel.Node"):
-					selIdx = i
-				case ts == "int64":
-					segIdx = i
+			for _, st := range c.CallsInl(f.SSA, CallTo(hr), 3) {
+				if len(st.X.Args) != ps.Len()+1 {
+					continue
 				}
+				selArg, segArg := st.X.Args[selIdx+1], st.X.Args[segIdx+1]
+				unlimited := selArg.Contains(func(y *X) bool {
+					return y.Op == "field" && (y.Name == "selectorAll" || y.Name == "selectorOne") && fieldOwner(y) == "Subscriber"
+				})
+				if !unlimited {
+					continue
+				}
+				n++
+				segArg = c.throughCell(segArg, st.Outer(), st.Env)
+				k, isConst := constInt(segArg)
+				c.Check(isConst && k <= 0, "C01.h-all-links-unsegmented", f.Name+" › "+c.short(hr.String()), st.Outer().Pos(),
+					"a sync with the all-links / single-block selector is started with segmentation off", "an all-links or single-block sync is started with a segment size ("+abbreviate(segArg.String())+"): the traversal is cut at the segment depth and nothing continues it, so deeper blocks are never fetched although the sync reports success")
 			}
-			if selIdx < 0 || segIdx < 0 || callee.Signature.Recv() == nil {
-				continue
-			}
-			off := 1 // receiver
-			if len(cs.X.Args) != ps.Len()+off {
-				continue
-			}
-			selArg, segArg := cs.X.Args[selIdx+off], cs.X.Args[segIdx+off]
-			unlimited := selArg.Contains(func(y *X) bool {
-				return y.Op == "field" && (y.Name == "selectorAll" || y.Name == "selectorOne") && fieldOwner(y) == "Subscriber"
-			})
-			if !unlimited {
-				continue
-			}
-			n++
-			k, isConst := constInt(segArg)
-			c.Check(isConst && k <= 0, "C01.h-all-links-unsegmented", f.Name+" › "+c.short(callee.String()), cs.In.Pos(),
-				"a sync with the all-links / single-block selector is started with segmentation off", "an all-links or single-block sync is started with a segment size ("+abbreviate(segArg.String())+"): the traversal is cut at the segment depth and nothing continues it, so deeper blocks are never fetched although the sync reports success")
 		}
 	}
 	c.Floor("C01.h-all-links-unsegmented", 2)
